@@ -124,7 +124,6 @@ Definition reroute (os : list iface) (intf : myintf) (p : packet) : packet :=
 
 Inductive obs : Type :=
 | OSent (p : packet)
-| OSentAny (p : packet)              (* leaves on the interface the IPv4 socket was last pointed at *)
 | OIpAdd (a : ip)
 | OIpDel (a : ip)
 | OFound (ty inst : bytes)
@@ -445,6 +444,8 @@ Definition do_unregister (now : N) (d : dstate) (key : bytes) : dstate * list ob
     let '(sent, resend) :=
       fold_left (fun (acc : list obs * list (N * rcmd)) (intf : myintf) =>
                    let '(sent, resend) := acc in
+                   (* nothing to withdraw where the service was never announced *)
+                   if negb (is_announced (status_get (mi_index intf) (ds_status ds))) then acc else
                    let p4 := goodbye_on (ds_svc ds) intf true in
                    let p6 := goodbye_on (ds_svc ds) intf false in
                    (sent ++ map (fun p => OSent (reroute (d_os d) intf p)) (opt_list p4 ++ opt_list p6),
@@ -507,10 +508,8 @@ Definition do_retrans (d : dstate) (c : rcmd) : dstate * list obs :=
   | RUnregisterResend p idx v4 =>
     match intf_get idx (d_intfs d) with
     | Some intf =>
-      (* exec_command_unregister_resend calls multicast_on_intf without set_multicast_if_*: an
-         IPv4 packet leaves wherever the socket was last pointed at (a real IPv6 stack follows the
-         scope id of the destination; the simulated socket reports its option for IPv6 as well) *)
-      if family_enabled intf v4 then (d, [OSentAny p]) else (d, [])
+      (* exec_command_unregister_resend: the saved packet leaves through the interface it was built for *)
+      if family_enabled intf v4 then (d, [OSent (reroute (d_os d) intf p)]) else (d, [])
     | None => (d, [])
     end
   end.
